@@ -19,7 +19,7 @@ pub enum Case {
     EulerLadder { problem: Problem, y0: Vec<f64>, t0: f64, tlen: f64, h0: f64 },
     /// complex scalar problem vs the equivalent real 2x2 system.
     /// kind 0: y' = (a + i w) y; kind 1: y' = -lam y + amp e^{i w t}
-    ComplexPair { solver: SolverKind, kind: u8, a: f64, w: f64, amp: f64, y0: (f64, f64), t0: f64, tlen: f64, tol: f64, frac: f64 },
+    ComplexPair { solver: SolverKind, kind: u8, a: f64, w: f64, amp: f64, y0: (f64, f64), second: Option<(f64, f64, (f64, f64))>, quadrature: bool, loose: bool, t0: f64, tlen: f64, tol: f64, frac: f64 },
     /// the same real problem through new() and new_dyn(dim)
     DynPair { solver: SolverKind, problem: Problem, y0: Vec<f64>, t0: f64, tlen: f64, tol: f64, frac: f64 },
 }
@@ -179,36 +179,66 @@ pub fn run_case(case: &Case) -> Outcome {
             }
             o.pass()
         }
-        Case::ComplexPair { solver, kind, a, w, amp, y0, t0, tlen, tol, frac } => {
+        Case::ComplexPair { solver, kind, a, w, amp, y0, second, quadrature, loose, t0, tlen, tol, frac } => {
             let solver = *solver;
             o.label("complex-pair");
             o.label(solver.name());
-            let (a, w, amp) = (*a, *w, *amp);
             let kind = *kind % 2;
-            let rate = (a * a + w * w).sqrt().max(0.1);
+            // one or two decoupled complex components (a_k, w_k, amp, y0_k)
+            let mut comps: Vec<(f64, f64, f64, C64)> = vec![(*a, *w, *amp, C64::new(y0.0, y0.1))];
+            if let Some((a2, w2, y2)) = second {
+                if *quadrature {
+                    // same dynamics, initial value rotated by 90 degrees: the two components (and their
+                    // errors) are in quadrature, z2 = i z1
+                    comps.push((*a, *w, *amp, C64::new(-y0.1, y0.0)));
+                    o.label("complex-quadrature");
+                } else {
+                    comps.push((*a2, *w2, *amp, C64::new(y2.0, y2.1)));
+                }
+                o.label("complex-dim2");
+            }
+            // loose: maximum step 8x beyond the step cap, so that the error estimator (not the cap) decides
+            // every step; only the complex-vs-real relation is judged then
+            let loose = *loose && solver != SolverKind::Euler;
+            if loose {
+                o.label("complex-loose-cap");
+            }
+            let d = comps.len();
+            let rate = comps.iter().map(|c| (c.0 * c.0 + c.1 * c.1).sqrt()).fold(0.1, f64::max);
             let adaptive = solver != SolverKind::Euler;
-            let dt_max = if adaptive { frac * solver.step_cap(*tol) / rate } else { 0.02 * frac / rate };
-            let t_len = tlen.min(3000.0 * dt_max);
+            let dt_max = if adaptive { frac * solver.step_cap(*tol) / rate * if loose { 8.0 } else { 1.0 } } else { 0.02 * frac / rate };
+            let t_len = tlen.min(3000.0 * dt_max / if loose { 8.0 } else { 1.0 });
             let cfg = Cfg { solver, t0: *t0, t_end: t0 + t_len, dt_min: if adaptive { 1e-7 * dt_max } else { dt_max }, dt_max, tol: *tol };
             let calls = if adaptive { cfg.calls() } else { vec![Call::MaxDt(dt_max), Call::Start(cfg.t0), Call::End(cfg.t_end), Call::Init, Call::Deriv] };
             // complex run
             let probe = Rc::new(RefCell::new(Probe { budget: DERIV_BUDGET, ..Default::default() }));
+            let cc = comps.clone();
             let crhs = move |t: f64, y: &[C64], out: &mut [C64]| {
-                out[0] = if kind == 0 { C64::new(a, w) * y[0] } else { y[0] * (-a.abs()) + C64::new((w * t).cos(), (w * t).sin()) * amp };
-            };
-            let crun = run_complex(solver, 1, &calls, &[C64::new(y0.0, y0.1)], probe.clone(), &crhs, MAX_POINTS);
-            // equivalent real system
-            let probe2 = Rc::new(RefCell::new(Probe { budget: DERIV_BUDGET, ..Default::default() }));
-            let rrhs = move |t: f64, y: &[f64], out: &mut [f64]| {
-                if kind == 0 {
-                    out[0] = a * y[0] - w * y[1];
-                    out[1] = w * y[0] + a * y[1];
-                } else {
-                    out[0] = -a.abs() * y[0] + amp * (w * t).cos();
-                    out[1] = -a.abs() * y[1] + amp * (w * t).sin();
+                for (k, &(a, w, amp, _)) in cc.iter().enumerate() {
+                    out[k] = if kind == 0 { C64::new(a, w) * y[k] } else { y[k] * (-a.abs()) + C64::new((w * t).cos(), (w * t).sin()) * amp };
                 }
             };
-            let rrun = run_real(solver, false, 2, &calls, &[y0.0, y0.1], probe2.clone(), &rrhs, MAX_POINTS, 0);
+            let cy0: Vec<C64> = comps.iter().map(|c| c.3).collect();
+            let crun = run_complex(solver, d, &calls, &cy0, probe.clone(), &crhs, MAX_POINTS);
+            // equivalent real system of dimension 2 d
+            let probe2 = Rc::new(RefCell::new(Probe { budget: DERIV_BUDGET, ..Default::default() }));
+            let rc = comps.clone();
+            let rrhs = move |t: f64, y: &[f64], out: &mut [f64]| {
+                for (k, &(a, w, amp, _)) in rc.iter().enumerate() {
+                    if kind == 0 {
+                        out[2 * k] = a * y[2 * k] - w * y[2 * k + 1];
+                        out[2 * k + 1] = w * y[2 * k] + a * y[2 * k + 1];
+                    } else {
+                        out[2 * k] = -a.abs() * y[2 * k] + amp * (w * t).cos();
+                        out[2 * k + 1] = -a.abs() * y[2 * k + 1] + amp * (w * t).sin();
+                    }
+                }
+            };
+            let ry0: Vec<f64> = comps.iter().flat_map(|c| [c.3.re, c.3.im]).collect();
+            let rrun = run_real(solver, false, 2 * d, &calls, &ry0, probe2.clone(), &rrhs, MAX_POINTS, 0);
+            if probe.borrow().budget_hit || probe2.borrow().budget_hit {
+                return o.discard("derivative budget exhausted");
+            }
             let (cp_, rp_) = match (&crun.end, &rrun.end) {
                 (End::Done, End::Done) => (&crun.pts, &rrun.pts),
                 (End::Panic(m), _) | (_, End::Panic(m)) => return o.fail(format!("panicked: {m}")),
@@ -219,10 +249,10 @@ pub fn run_case(case: &Case) -> Outcome {
                     return if same { o.discard("both runs ended with an error (completion is judged by C05)") } else { o.fail(format!("complex run ended with {c:?} but the equivalent real run with {r:?}")) };
                 }
             };
-            // exact solution
-            let exact = |t: f64| -> C64 {
+            // exact solution per component
+            let exact = |k: usize, t: f64| -> C64 {
+                let (a, w, amp, z0) = comps[k];
                 let dt = t - t0;
-                let z0 = C64::new(y0.0, y0.1);
                 if kind == 0 {
                     z0 * C64::new(a * dt, w * dt).exp()
                 } else {
@@ -232,17 +262,26 @@ pub fn run_case(case: &Case) -> Outcome {
                     (z0 - yp(*t0)) * (-l * dt).exp() + yp(t)
                 }
             };
-            let growth = if kind == 0 { a.max(0.0) } else { 0.0 };
+            let growth = if kind == 0 { comps.iter().map(|c| c.0).fold(0.0, f64::max) } else { 0.0 };
+            let y0n = comps.iter().map(|c| c.3.norm()).sum::<f64>();
+            let ampn = comps.iter().map(|c| c.2.abs()).fold(0.0, f64::max);
             let mut worst: f64 = 0.0;
-            for (which, pts) in [("complex", cp_.iter().map(|(t, y)| (*t, y[0])).collect::<Vec<_>>()), ("real", rp_.iter().map(|(t, y)| (*t, C64::new(y[0], y[1]))).collect::<Vec<_>>())] {
+            let mut worst_err = [0.0f64; 2];
+            let as_complex = |pts: &Vec<(f64, Vec<f64>)>| -> Vec<(f64, Vec<C64>)> { pts.iter().map(|(t, y)| (*t, (0..d).map(|k| C64::new(y[2 * k], y[2 * k + 1])).collect())).collect() };
+            for (wi, (which, pts)) in [("complex", cp_.clone()), ("real", as_complex(rp_))].into_iter().enumerate() {
                 for (i, (t, y)) in pts.iter().enumerate() {
-                    let err = (y - exact(*t)).norm();
+                    let err = (0..d).map(|k| (y[k] - exact(k, *t)).norm_sqr()).sum::<f64>().sqrt();
+                    worst_err[wi] = worst_err[wi].max(err);
+                    if loose {
+                        continue;
+                    }
+                    let yn = y.iter().map(|z| z.norm()).sum::<f64>();
                     let e = (growth * (t - t0)).exp();
-                    let floor = 256.0 * EPS * (1.0 + y.norm()) * e * (i as f64 + 1.0).sqrt();
+                    let floor = 256.0 * EPS * (1.0 + yn) * e * (i as f64 + 1.0).sqrt();
                     let bound = if !adaptive {
-                        // first-order bound with M2 = |lambda|^2 max|y|
+                        // first-order bound with M2 >= max |y''|
                         let l = rate;
-                        let m2 = 2.0 * (rate * rate * (C64::new(y0.0, y0.1).norm() + 4.0 * amp.abs() + amp.abs() / rate) + 2.0 * rate * amp.abs()) * e.max(1.0);
+                        let m2 = 2.0 * (rate * rate * (y0n + 4.0 * ampn * d as f64 + ampn / rate) + 2.0 * rate * ampn * d as f64) * e.max(1.0);
                         (dt_max * m2 / (2.0 * l)) * ((l * (t - t0)).exp() - 1.0) * 1.05 + floor
                     } else if solver.is_bdf() {
                         K_GLOBAL_BDF * tol * (i as f64 + 1.0) * e + floor
@@ -256,22 +295,38 @@ pub fn run_case(case: &Case) -> Outcome {
                 }
             }
             o.set("ratio_pair_accuracy", worst);
+            // metamorphic relation proper: the complex formulation is as accurate as the real one
+            {
+                let e = (growth * t_len).exp();
+                let slack = 20.0 * tol * t_len.max(1.0) * e * if solver.is_bdf() { cp_.len() as f64 } else { 1.0 } + 1e-12;
+                let rel = worst_err[0] / (20.0 * worst_err[1] + slack);
+                o.set("ratio_pair_relative", rel);
+                if !(worst_err[0] <= 20.0 * worst_err[1] + slack) {
+                    return o.fail(format!("{}: the complex formulation's worst error {:e} is more than 20x that of the equivalent real system ({:e}); tol = {tol:e}", solver.name(), worst_err[0], worst_err[1]));
+                }
+            }
             // same discretisation: compare point by point when the step sequences coincide
             let same_times = cp_.len() == rp_.len() && cp_.iter().zip(rp_.iter()).all(|(c, r)| c.0 == r.0);
             if same_times {
                 o.label("identical-step-sequence");
                 let mut wd: f64 = 0.0;
-                for (c, r) in cp_.iter().zip(rp_.iter()) {
-                    let d = (c.1[0] - C64::new(r.1[0], r.1[1])).norm();
-                    let allow = 64.0 * EPS * (1.0 + c.1[0].norm()) * (cp_.len() as f64).sqrt() * if solver.is_bdf() { 64.0 + tol / EPS } else { 1.0 };
-                    wd = wd.max(d / allow);
-                    if !(d <= allow) {
-                        return o.fail(format!("complex and real formulations took the same steps but differ by {d:e} at t = {:e} (allowed {allow:e})", c.0));
+                for (c, r) in cp_.iter().zip(as_complex(rp_).iter()) {
+                    let dd = (0..d).map(|k| (c.1[k] - r.1[k]).norm_sqr()).sum::<f64>().sqrt();
+                    let cn = c.1.iter().map(|z| z.norm()).sum::<f64>();
+                    let allow = 64.0 * EPS * (1.0 + cn) * (cp_.len() as f64).sqrt() * if solver.is_bdf() { 64.0 + tol / EPS } else { 1.0 };
+                    wd = wd.max(dd / allow);
+                    if !(dd <= allow) {
+                        return o.fail(format!("complex and real formulations took the same steps but differ by {dd:e} at t = {:e} (allowed {allow:e})", c.0));
                     }
                 }
                 o.set("ratio_pair_match", wd);
             } else {
                 o.label("different-step-sequence");
+                // "solved as accurately as the equivalent real system": the two runs must do comparable work
+                let (nc, nr) = (cp_.len() as f64, rp_.len() as f64);
+                if adaptive && (nc < 0.5 * nr - 8.0 || nc > 2.0 * nr + 8.0) {
+                    return o.fail(format!("complex formulation took {nc} steps, the equivalent real system {nr}: the error control differs"));
+                }
             }
             o.nontrivial = cp_.len() >= 20;
             o.pass()
@@ -338,8 +393,9 @@ fn strategy(_t: Tier) -> BoxedStrategy<Case> {
     let t0 = || prop_oneof![1 => Just(0.0), 3 => gen::fl(-2.0, 2.0)];
     let ladder = (proptest::sample::select(&ADAPTIVE[..]), problem_closed(), t0(), gen::fl(0.5, 3.0), gen::fl(0.3, 1.0)).prop_map(|(solver, (problem, y0), t0, tlen, frac)| Case::Ladder { solver, problem, y0, t0, tlen, frac });
     let euler = (problem_closed(), t0(), gen::fl(0.5, 2.0), gen::logu(-2.0, -1.0)).prop_map(|((problem, y0), t0, tlen, h0)| Case::EulerLadder { problem, y0, t0, tlen, h0 });
-    let cpair = (proptest::sample::select(&ALL_SOLVERS[..]), 0u8..2, gen::fl(-1.0, 0.5), gen::fl(0.5, 3.0), gen::fl(-2.0, 2.0), (gen::fl(-2.0, 2.0), gen::fl(-2.0, 2.0)), t0(), gen::fl(0.5, 4.0), gen::logu(-9.0, -3.0), gen::fl(0.3, 1.0))
-        .prop_map(|(solver, kind, a, w, amp, y0, t0, tlen, tol, frac)| Case::ComplexPair { solver, kind, a, w, amp, y0, t0, tlen, tol, frac });
+    let second = prop_oneof![1 => Just(None), 2 => (gen::fl(-1.0, 0.5), gen::fl(0.5, 3.0), (gen::fl(-2.0, 2.0), gen::fl(-2.0, 2.0))).prop_map(Some)];
+    let cpair = ((proptest::sample::select(&ALL_SOLVERS[..]), 0u8..2, gen::fl(-1.0, 0.5), gen::fl(0.5, 3.0), gen::fl(-2.0, 2.0), (gen::fl(-2.0, 2.0), gen::fl(-2.0, 2.0))), (second, prop_oneof![2 => Just(false), 1 => Just(true)], any::<bool>()), (t0(), gen::fl(0.5, 4.0), gen::logu(-9.0, -3.0), gen::fl(0.3, 1.0)))
+        .prop_map(|((solver, kind, a, w, amp, y0), (second, quadrature, loose), (t0, tlen, tol, frac))| Case::ComplexPair { solver, kind, a, w, amp, y0, second, quadrature, loose, t0, tlen, tol, frac });
     let dpair = (proptest::sample::select(&ALL_SOLVERS[..]), problem_any(), t0(), gen::fl(0.5, 4.0), gen::logu(-9.0, -3.0), gen::fl(0.3, 1.0)).prop_map(|(solver, (problem, y0), t0, tlen, tol, frac)| Case::DynPair { solver, problem, y0, t0, tlen, tol, frac });
     prop_oneof![2 => ladder, 1 => euler, 3 => cpair, 3 => dpair].boxed()
 }
@@ -351,9 +407,9 @@ pub fn run(opts: &Opts) -> i32 {
     }
     spec.enumerated.push(Case::EulerLadder { problem: Problem::Lin { blocks: vec![(-0.5, 1.5)], mix: vec![0.2; 16], center: vec![0.0, 0.0] }, y0: vec![1.0, 0.0], t0: 0.0, tlen: 1.0, h0: 0.05 });
     spec.cases = opts.tier.pick(3_000, 60_000);
-    spec.essential = vec![("ladder", 0.1), ("converging", 0.08), ("euler-ladder", 0.05), ("order-observed", 0.04), ("complex-pair", 0.2), ("dyn-pair", 0.2), ("identical-step-sequence", 0.1)];
+    spec.essential = vec![("ladder", 0.1), ("converging", 0.08), ("euler-ladder", 0.05), ("order-observed", 0.04), ("complex-pair", 0.2), ("complex-dim2", 0.1), ("complex-quadrature", 0.03), ("complex-loose-cap", 0.08), ("dyn-pair", 0.2), ("identical-step-sequence", 0.1)];
     spec.max_discard_frac = 0.15;
-    spec.rule = format!("generated: (1) tolerance ladders 1e-3..1e-10 for the six adaptive solvers on closed-form problems (linear constant-coefficient, forced linear, separable; dimension 1-4) with dt_max = U(0.3,1) cap(tol)/L; every yielded state within {K_GLOBAL} tol (t - t0) E (RK/Adams) or {K_GLOBAL_BDF} tol i E (BDF) of the closed-form solution, E = cond(M) max(1, e^(mu (t-t0))); (2) Euler step ladders h0 2^-j: classical first-order bound and error ratio in [1.6,2.4] per halving once h <= 0.02/L; (3) complex scalar problems y' = (a+iw)y and y' = -l y + A e^(iwt) against the equivalent real 2x2 system: both within the accuracy bound, and equal point by point when the step sequences coincide; (4) the same problem through new() and new_dyn(dim): point counts within one, times within 1e-4 dt_max, states equal after transporting the static point to the dynamic time with the reference flow (64 eps x steps + 1e-3 tol). Non-trivial = ladder whose finest error is < 1e-3 of its coarsest; Euler ladder with at least one judged halving; pairs with >= 20 points. Distinct = distinct case JSON.");
+    spec.rule = format!("generated: (1) tolerance ladders 1e-3..1e-10 for the six adaptive solvers on closed-form problems (linear constant-coefficient, forced linear, separable; dimension 1-4) with dt_max = U(0.3,1) cap(tol)/L; every yielded state within {K_GLOBAL} tol (t - t0) E (RK/Adams) or {K_GLOBAL_BDF} tol i E (BDF) of the closed-form solution, E = cond(M) max(1, e^(mu (t-t0))); (2) Euler step ladders h0 2^-j: classical first-order bound and error ratio in [1.6,2.4] per halving once h <= 0.02/L; (3) complex problems of dimension 1 and 2 (decoupled components y' = (a+iw)y or y' = -l y + A e^(iwt) with independent phases) against the equivalent real system of twice the dimension, also with components in quadrature (z2 = i z1) and with the maximum step 8x beyond the cap (estimator-limited): the complex formulation's worst error must be within 20x that of the real one: both within the accuracy bound, and equal point by point when the step sequences coincide; (4) the same problem through new() and new_dyn(dim): point counts within one, times within 1e-4 dt_max, states equal after transporting the static point to the dynamic time with the reference flow (64 eps x steps + 1e-3 tol). Non-trivial = ladder whose finest error is < 1e-3 of its coarsest; Euler ladder with at least one judged halving; pairs with >= 20 points. Distinct = distinct case JSON.");
     spec.max_shrink_iters = 100;
     run_spec(spec, opts)
 }
